@@ -340,9 +340,10 @@ def run(ctx, repo):
     want_copy = [v for v in place_vals if prev_j and v[0] == '%s._place' % prev_j[0]]
     want_next = [v for v in place_vals if v[0] in ('%s + 1' % ivar, '1 + %s' % ivar)]
     if len(place_vals) == 3 and want_first and want_copy and want_next \
-            and any(c[0] == '%s == 0' % ivar and c[1] for c in want_first[0][1]) \
+            and any((c[0] in ('%s == 0' % ivar, '0 == %s' % ivar, '%s < 1' % ivar) and c[1]) or (c[0] == 'not %s' % ivar and c[1])
+                    or (c[0] == ivar and not c[1]) for c in want_first[0][1]) \
             and any('==' in c[0] and c[1] for c in want_copy[0][1]) \
-            and any('==' in c[0] and not c[1] for c in want_next[0][1] if c[0] != '%s == 0' % ivar):
+            and any('==' in c[0] and not c[1] for c in want_next[0][1] if c[0] not in ('%s == 0' % ivar, '0 == %s' % ivar)):
         ctx.ok('R2', 'places: 1 for the first, copied on equal keys, else index+1 (standard competition ranking)')
     else:
         ctx.finding('R2', '%s::HighJumpCompetition._rankj::place numbering' % HJ, HJ, lp.lineno,
